@@ -16,7 +16,7 @@ def pool_col(kind, n, tag):
     if kind == "T":
         return Arr("string", [choice(f"{tag}{i}", STR_POOL) for i in range(n)])
     if kind == "O":
-        return Arr("object", [choice(f"{tag}{i}", [None, "obj", ("t", 1)]) for i in range(n)])
+        return Arr("object", [choice(f"{tag}{i}", [None, "obj", ("t", 1), "y" * 45, "two\nlines"]) for i in range(n)])
     if kind == "D":
         return Arr("datetime64[D]", [BV(choice(f"{tag}{i}", [18321, symx.INT64_MIN])) for i in range(n)])
     return mk_col(kind, n, tag)
